@@ -150,10 +150,171 @@ def per_path(ctx, po, sh):
                 return
 
 
+# ---------------------------------------------------------------------------------------------------- #[parent] (third sentence)
+PARENT_TYPES = {'ParT', 'SubT', 'DeepT'}
+
+
+def pfield_attr(f, kind):
+    """the instruction of a parameterised-parent field that takes effect for `kind` (documented chain: the instruction covering
+    the kind, else — for into_existing — the one covering the corresponding into kind) -> (that_member | None, action | None)"""
+    dk = docs_tables()
+    def covers(nm, k):
+        return any(kk == k for kk, _ in dk[nm])
+    for k in ([kind] + ([{'OwnedIntoExisting': 'OwnedInto', 'RefIntoExisting': 'RefInto'}[kind]] if kind in slots.EXISTING else [])):
+        for nm, that, act in f.attrs:
+            if covers(nm, k):
+                return that, act
+    return None, None
+
+
+_DK = []
+
+
+def docs_tables():
+    if not _DK:
+        sys.path.insert(0, os.path.join(VERIF, 'oracle'))
+        import docs
+        _DK.append(docs.doc_kinds())
+    return _DK[0]
+
+
+def expected_parent(spec, ev, kind, fallible, cp):
+    """-> dict(leaves {path: rhs}, ctors {path: type}, pour: None | text of the pour statement, bare: bool)"""
+    frm = kind in slots.FROM
+    out = {'leaves': {}, 'ctors': {(): 'S' if frm else cp}, 'pour': None, 'bare': False}
+    by_ref = kind in ('FromRef', 'RefInto', 'RefIntoExisting')
+    for m in spec.members:
+        ps = [i for i in m.instrs if isinstance(i, ParentInstr)]
+        if not ps:
+            maps = [i for i in m.instrs if isinstance(i, MapInstr)]
+            ren = ev(maps[0].member) if maps else None
+            slot = str(ren[1]) if ren is not None else m.name
+            if frm:
+                out['leaves'][(m.name,)] = 'value.' + slot
+            else:
+                out['leaves'][(slot,)] = 'self.' + m.name
+            continue
+        p = ps[0]
+        ded = ev(p.ded)
+        if ded is not None and ded != cp:
+            # the instruction belongs to another counterpart: an ordinary member here
+            if frm:
+                out['leaves'][(m.name,)] = 'value.' + m.name
+            else:
+                out['leaves'][(m.name,)] = 'self.' + m.name
+            continue
+        if p.fields is None:
+            out['bare'] = True
+            if frm:
+                conv = 'try_into()?' if fallible else 'into()'
+                out['leaves'][(m.name,)] = ('value.%s' if by_ref else '(&value).%s') % conv
+            else:
+                meth = 'try_into_existing' if fallible else 'into_existing'
+                recv = '(&(self.%s))' % m.name if by_ref else 'self.%s' % m.name
+                dest = 'other' if kind in slots.EXISTING else '&mut obj'
+                out['pour'] = '%s.%s(%s)%s' % (recv, meth, dest, '?' if fallible else '')
+            continue
+        if frm:
+            out['ctors'][(m.name,)] = m.ty
+        for f in p.fields:
+            that, act = pfield_attr(f, kind)
+            sub = tuple(str(x[0][1]) for x in f.sub_path)
+            own = str(f.this[1])
+            if frm:
+                for k in range(1, len(sub) + 1):
+                    out['ctors'][(m.name,) + sub[:k]] = f.sub_path[k - 1][1]
+                src = 'value.' + (str(that[1]) if that is not None else own)
+                out['leaves'][(m.name,) + sub + (own,)] = slots.subst(act, 'value', src) if act is not None else src
+            else:
+                mine = '.'.join(('self', m.name) + sub + (own,))
+                out['leaves'][(str(that[1]) if that is not None else own,)] = slots.subst(act, 'self', mine) if act is not None else mine
+    return out
+
+
+def parse_tree_p(items):
+    global TYPES
+    saved = TYPES
+    TYPES = TYPES | PARENT_TYPES
+    try:
+        return parse_tree(items)
+    finally:
+        TYPES = saved
+
+
+def per_path_parent(ctx, po, sh):
+    if po.kind != 'ok' or sh['family'] != 'parent' or po.spec.shape != 'named':
+        return
+    try:
+        impls = decode.split_impls(po.tokens)
+        decs = [slots.decode_fn(im) for im in impls]
+    except (ValueError, IndexError, KeyError):
+        ctx.cov['sub_checks']['undecodable (C17 matter)'] = ctx.cov['sub_checks'].get('undecodable (C17 matter)', 0) + 1
+        return
+    vars_ = [v for v, _ in po.env.vars.values()]
+    models, _ = c01.all_models(ctx, po.res.pc, vars_, cap=8)
+    for mdl in models:
+        ev = Ev(po.env, mdl)
+        hints = {t.ty: ev(t.hint) for t in po.spec.traits if isinstance(t.ty, str)}
+        for d in decs:
+            kind, fallible, cp = d['kind'], d['fallible'], d['cp']
+            if hints.get(cp, 'Unspecified') == 'Tuple':
+                ctx.cov['sub_checks']['parent: tuple-form counterpart skipped'] = ctx.cov['sub_checks'].get('parent: tuple-form counterpart skipped', 0) + 1
+                continue
+            exp = expected_parent(po.spec, ev, kind, fallible, cp)
+            why = None
+            want_flat = sorted(exp['leaves'].items())
+            if kind in slots.EXISTING or (exp['bare'] and kind in slots.INTO):
+                root = 'other' if kind in slots.EXISTING else 'obj'
+                want = sorted((root + '.' + '.'.join(pth), r) for pth, r in exp['leaves'].items())
+                got = sorted(set(d['assigns']))
+                calls = [c for c in d['calls'] if not c.startswith('letmutobj')]
+                pours = [c for c in calls if 'into_existing' in c]
+                if want != got:
+                    why = ('assignments', 'expected %r, generated %r' % (want, got))
+                elif exp['pour'] is None and pours:
+                    why = ('pour', 'no bare parent applies, yet the body pours %r' % pours)
+                elif exp['pour'] is not None and [decode_norm(x) for x in pours] != [decode_norm(exp['pour'])]:
+                    why = ('pour', 'expected exactly `%s`, generated %r' % (exp['pour'], pours))
+                elif kind in slots.INTO and d['tail'] != 'obj':
+                    why = ('result', 'the value returned is `%s`, expected the poured-into `obj`' % d['tail'])
+            else:
+                tree = parse_tree_p(d['tail_items'])
+                got_leaves, got_ctors = flatten(tree)
+                paths = [pth for pth, _ in got_ctors]
+                dup = sorted({pth for pth in paths if paths.count(pth) > 1})
+                if dup:
+                    why = ('built-twice', 'nested struct(s) %s constructed more than once' % ['.'.join(x) for x in dup])
+                elif dict(got_ctors) != exp['ctors']:
+                    why = ('constructors', 'expected %r, generated %r' % (exp['ctors'], dict(got_ctors)))
+                elif sorted((pth, decode_norm(r)) for pth, r in got_leaves) != sorted((pth, decode_norm(r)) for pth, r in exp['leaves'].items()):
+                    why = ('members', 'expected %r, generated %r' % (want_flat, sorted(got_leaves)))
+            ctx.cov['queries']['unsat' if why is None else 'sat'] += 1
+            if why:
+                text = po.spec.text(ev)
+                nat = ctx.replay.run(text)
+                if nat['status'] == 'ok' and expander.flat_text(nat['out']) == expander.flat(po.tokens):
+                    ctx.violation('parent', '%s/%s/%s' % (why[0], 'from' if kind in slots.FROM else ('existing' if kind in slots.EXISTING else 'into'), sh['variant']),
+                                  '%s%s for %s: %s' % (kind, ' (fallible)' if fallible else '', cp, why[1]), {'input': text, 'output': nat['out'][:1500]})
+                else:
+                    ctx.inconclusive.append('C03 (parent) counterexample does not reproduce natively: %s' % text)
+                return
+
+
+def decode_norm(s):
+    return norm(tokenize(s).items) if isinstance(s, str) else s
+
+
+def per_path_both(ctx, po, sh):
+    if sh['family'] == 'child':
+        per_path(ctx, po, sh)
+    else:
+        per_path_parent(ctx, po, sh)
+
+
 def body(ctx):
-    ctx.cov['outside_claim'] = ['tuple-shaped flat structs / tuple child_parents hints (positions)', 'parameterised and bare #[parent] are exercised by C16/C17/C07 sweeps but not judged here', 'depth > 2, more than 3 flat members', 'runtime values']
+    ctx.cov['outside_claim'] = ['tuple-shaped flat structs / tuple child_parents hints (positions)', '#[parent] with a tuple-form counterpart; nested parents deeper than 2', 'depth > 2, more than 3 flat members', 'runtime values']
     ctx.assumptions = ['oracle = property statement: every prefix of a child path is one constructor typed by child_parents, holding all and only the members below it', 'decoder is structural; predicted == real tokens per path']
-    expander.sweep(ctx, ['child'], per_path)
+    expander.sweep(ctx, ['child', 'parent'], per_path_both)
 
 
 if __name__ == '__main__':
